@@ -7,6 +7,7 @@ From Coq Require Import List NArith Arith Bool String.
 From SV Require Import Fmt.LongString Fmt.LongStringProofs Fmt.FgdBin Fmt.FgdBinProofs SM.LazyDb SM.LazyDbProofs SM.LazyDbMulti SM.LazyDbMultiProofs.
 From SV Require Import Fmt.FgdBinEnt Fmt.FgdBinEntProofs Fmt.FgdLine Fmt.FgdLineProofs Fmt.FgdLineTextProofs Fmt.FgdBody Fmt.FgdBodyProofs.
 From SV Require Import Fmt.FgdHead Fmt.FgdHeadProofs Fmt.FgdEntity Fmt.FgdEntityProofs.
+From SV Require Import Fmt.FgdTypeText Fmt.FgdTypeTextProofs.
 From SV Require Import Gen.FgdConsts_gen.
 Import ListNotations.
 Open Scope N_scope.
@@ -702,3 +703,73 @@ Definition overwrite_merge_breaks : bool :=
   | [Some ((a, _), _)], Some ((b, _), _), Some ((c, _), _) => negb (a =? b) && (a =? c)
   | _, _, _ => false
   end.
+
+(** * The type text of keyvalue / input / output lines (Fmt/FgdTypeText.v; round 4)
+    [kv_type_prog] / [io_type_prog] are read off KVDef._parse / IODef._parse by symbolic execution on every run (which string is
+    stripped, casefolded, compared, looked up in VALUE_TYPE_LOOKUP and stored as the custom type), [vt_lookup_tab] is
+    VALUE_TYPE_LOOKUP.  [fold] is str.casefold; the three laws hold for ASCII lower-casing ([c16_ascii_casefold_laws]). *)
+Definition TARGET_DESTINATION : str := [116; 97; 114; 103; 101; 116; 95; 100; 101; 115; 116; 105; 110; 97; 116; 105; 111; 110].
+Definition kv_type_prog_ok : bool := kv_prog_ok kv_type_prog.
+Definition io_type_prog_ok : bool := io_prog_ok TARGET_DESTINATION io_type_prog.
+Definition kv_unknown_type_kept_verbatim : bool := fallback_verbatim kv_type_prog.
+Definition io_unknown_type_kept_verbatim : bool := fallback_verbatim io_type_prog.
+Definition type_table_ok : bool := tab_ok lower vt_lookup_tab.
+Definition fold_then_fallback_breaks : bool := fold_fallback_breaks.
+
+(** every generated program that passes the obligation equals the hand model (known names matched case-insensitively, a leading
+    '*' = report, unknown names kept as written) on ALL token texts *)
+Theorem c16_kv_type_program_is_model : forall (fold : str -> str) (tab : list (str * str)),
+  (forall s, fold (fold s) = fold s) -> (forall s, fold (strip s) = strip (fold s)) -> (forall s, fold (tl s) = tl (fold s)) ->
+  forall p, kv_prog_ok p = true -> forall raw, trun fold tab p raw = spec_kv fold tab raw.
+Proof. exact kv_prog_is_model. Qed.
+Theorem c16_io_type_program_is_model : forall (fold : str -> str) (tab : list (str * str)),
+  (forall s, fold (fold s) = fold s) -> (forall s, fold (strip s) = strip (fold s)) -> (forall s, fold (tl s) = tl (fold s)) ->
+  forall special p, io_prog_ok special p = true -> forall raw, trun fold tab p raw = spec_io fold tab special raw.
+Proof. exact io_prog_is_model. Qed.
+(** export then parse is the identity on a custom type name (stripped, no leading '*', not a spelling of a known type / of
+    `ehandle`): the text between the parentheses is the name and it is read back as exactly that name *)
+Theorem c16_custom_kv_type_roundtrip : forall (fold : str -> str) (tab : list (str * str)) s,
+  strip s = s -> starts_star s = false -> assoc (fold s) tab = None ->
+  spec_kv fold tab (kv_type_text (Custom s)) = (false, Custom s).
+Proof. exact kv_custom_roundtrip. Qed.
+Theorem c16_custom_io_type_roundtrip : forall (fold : str -> str) (tab : list (str * str)) special io_text s,
+  strip s = s -> str_eqb s EHANDLE = false -> assoc (fold s) tab = None ->
+  spec_io fold tab special (io_type_text io_text (Custom s)) = (false, Custom s).
+Proof. exact io_custom_roundtrip. Qed.
+(** parse then export is idempotent on known types: whatever spelling was read, the canonical text that is written reads back
+    as the same member (keyvalues), resp. the written text is reproduced by the next parse + export (I/O, where types decay) *)
+Theorem c16_known_kv_type_idempotent : forall (fold : str -> str) (tab : list (str * str)) raw b c,
+  tab_ok fold tab = true -> spec_kv fold tab raw = (b, Known c) -> spec_kv fold tab (kv_type_text (Known c)) = (false, Known c).
+Proof. exact kv_known_idempotent. Qed.
+Theorem c16_known_io_type_idempotent : forall (fold : str -> str) (tab : list (str * str)) special (io_text decay : str -> str) raw c,
+  (forall c, spec_io fold tab special (io_text c) = (false, Known (decay c))) -> (forall c, io_text (decay c) = io_text c) ->
+  spec_io fold tab special raw = (false, Known c) ->
+  let text2 := io_type_text io_text (Known c) in
+  io_type_text io_text (snd (spec_io fold tab special text2)) = text2.
+Proof. exact io_known_idempotent. Qed.
+Theorem c16_ascii_casefold_laws :
+  (forall s, lower (lower s) = lower s) /\ (forall s, lower (strip s) = strip (lower s)) /\ (forall s, lower (tl s) = tl (lower s)).
+Proof. exact (conj lower_idem (conj lower_strip lower_tl)). Qed.
+(** composition for today's source: with the generated programs and table, a custom name survives export -> parse on keyvalue,
+    input and output lines, and re-reading what was written for a known type gives the same member *)
+Theorem c16_type_text_property :
+  kv_type_prog_ok = true -> io_type_prog_ok = true -> type_table_ok = true ->
+  (forall s, strip s = s -> starts_star s = false -> assoc (lower s) vt_lookup_tab = None ->
+     trun lower vt_lookup_tab kv_type_prog (kv_type_text (Custom s)) = (false, Custom s)) /\
+  (forall io_text s, strip s = s -> str_eqb s EHANDLE = false -> assoc (lower s) vt_lookup_tab = None ->
+     trun lower vt_lookup_tab io_type_prog (io_type_text io_text (Custom s)) = (false, Custom s)) /\
+  (forall raw b c, trun lower vt_lookup_tab kv_type_prog raw = (b, Known c) ->
+     trun lower vt_lookup_tab kv_type_prog (kv_type_text (Known c)) = (false, Known c)).
+Proof. exact (type_text_property_gen kv_type_prog io_type_prog vt_lookup_tab TARGET_DESTINATION). Qed.
+(** the nearby wrong shape — casefold first, then look up and fall back to the folded text — loses the case of `Locale_ID` *)
+Example c16_fold_then_fallback_refuted :
+  trun lower [] fold_first_prog (kv_type_text (Custom LOCALE_ID)) = (false, Custom (lower LOCALE_ID)) /\ lower LOCALE_ID <> LOCALE_ID
+  /\ fallback_verbatim fold_first_prog = false.
+Proof. split; [vm_compute; reflexivity | split; [discriminate | vm_compute; reflexivity]]. Qed.
+(** the hypotheses of [c16_custom_kv_type_roundtrip] are satisfiable with a table that knows `integer` and `int` *)
+Example c16_type_text_example :
+  let tab := [([105; 110; 116], [105; 110; 116; 101; 103; 101; 114]); ([105; 110; 116; 101; 103; 101; 114], [105; 110; 116; 101; 103; 101; 114])] in
+  tab_ok lower tab = true /\
+  spec_kv lower tab [32; 42; 73; 78; 84; 32] = (true, Known [105; 110; 116; 101; 103; 101; 114]) /\
+  spec_kv lower tab LOCALE_ID = (false, Custom LOCALE_ID).
+Proof. vm_compute. auto. Qed.
